@@ -117,9 +117,11 @@ def run(ctx):
                 samples.append({"main.circom": p["files"]["main.circom"][:500], "order": order,
                                 "offered": [(r["id"], r["level"]) for r in offered][:12]})
 
+        cli_jobs = [j + (n,) for n, j in enumerate(cli_jobs)]   # unique SARIF file per run (runs are concurrent)
+
         def job(j):
-            k, p, req, offered, sources, level, allow, sarif, verbose = j
-            sf = os.path.join(req["base"], "out_%s_%s_%d%d.sarif" % (level, "-".join(allow) or "none", sarif, verbose)) if sarif else None
+            k, p, req, offered, sources, level, allow, sarif, verbose, jobno = j
+            sf = os.path.join(req["base"], "out_%d.sarif" % jobno) if sarif else None
             res = rl.run_cli(cli, req, level=level, allow=allow, sarif=sf, verbose=verbose)
             sarif_doc = None
             if sf and os.path.exists(sf):
@@ -131,7 +133,7 @@ def run(ctx):
 
         results = rl.pmap(job, cli_jobs)
         for j, (res, sarif_doc) in zip(cli_jobs, results):
-            k, p, req, offered, sources, level, allow, sarif, verbose = j
+            k, p, req, offered, sources, level, allow, sarif, verbose, jobno = j
             stats["cli runs"] += 1
             exp = [r for r in offered if rl.spec_keep(r, rl.LEVELS[level], allow)]
             word = {"info": "note", "warning": "warning", "error": "error"}
